@@ -66,6 +66,8 @@ pub enum Action {
 	TlvShuffle { v: Val, rec: u16, dup: bool, chunk: Chunking },
 	/// overwrite u16 length/count prefix number `which` with 0xffff, or with value+1
 	Inflate { v: Val, which: u16, plus_one: bool, chunk: Chunking },
+	/// a byte-length prefix governing whole records is lowered by one
+	Deflate { v: Val, which: u16, chunk: Chunking },
 	/// write an out-of-range value into range-checked byte number `which`
 	BadByte { v: Val, which: u16, chunk: Chunking },
 	/// `len` bytes of noise from splitmix(nseed) decoded as type `ty`; if `keep` is set the first
@@ -92,6 +94,7 @@ impl Action {
 			Action::TlvRewrite { .. } => "TlvRewrite",
 			Action::TlvShuffle { .. } => "TlvShuffle",
 			Action::Inflate { .. } => "Inflate",
+			Action::Deflate { .. } => "Deflate",
 			Action::BadByte { .. } => "BadByte",
 			Action::Raw { .. } => "Raw",
 			Action::Bytes { .. } => "Bytes",
@@ -108,6 +111,7 @@ impl Action {
 			| Action::TlvRewrite { v, .. }
 			| Action::TlvShuffle { v, .. }
 			| Action::Inflate { v, .. }
+			| Action::Deflate { v, .. }
 			| Action::BadByte { v, .. }
 			| Action::Raw { v, .. }
 			| Action::Bytes { v, .. }
@@ -881,6 +885,23 @@ impl Env {
 				self.out.bump("fault:inflated-u16-length");
 				self.check::<N>("inflated u16 length prefix", v, Some(off as u32), kind, 1, Some(&base.b.m), d, false,
 					Expect::Err("C13-5 truncation", "a length prefix that promises more bytes than the frame holds"));
+				true
+			},
+			Action::Deflate { which, chunk, .. } => {
+				if base.b.strict.is_empty() {
+					return false;
+				}
+				let off = base.b.strict[*which as usize % base.b.strict.len()];
+				let old = u16::from_be_bytes([base.enc[off], base.enc[off + 1]]);
+				if old == 0 {
+					return false;
+				}
+				let mut data = base.enc.clone();
+				data[off..off + 2].copy_from_slice(&(old - 1).to_be_bytes());
+				let d: Dec<N::M> = decode(&data, l, *chunk, Cut::None, &[]);
+				self.out.bump("fault:deflated-record-list-length");
+				self.check::<N>("record-list length lowered by one", v, Some(off as u32), kind, 1, Some(&base.b.m), d, false,
+					Expect::Err("C13-5 truncation", "a record that straddles the end of its declared list"));
 				true
 			},
 			Action::BadByte { which, chunk, .. } => {
